@@ -20,7 +20,7 @@ amock = A.mock
 
 MODNAME = "simq_c19_target"
 TARGETS = ["fn", "meth", "cmeth", "smeth", "attr"]
-REPLS = ["default", "function", "bound", "callable", "new_callable", "noncallable"]
+REPLS = ["default", "function", "bound", "callable", "callable_shared", "new_callable", "noncallable"]
 
 
 def build_module():
@@ -138,9 +138,14 @@ class C19(object):
                 return M.__dict__[t]
             return M.Cls.__dict__[t]
 
+        shared_obj = CallableObj("shared")
+
         def make_patcher(t, kind, serial):
             kw = {}
             args = []
+            if kind == "callable_shared":
+                # one caller-supplied replacement object used by several (possibly overlapping) patches
+                args = [shared_obj]
             if kind == "function":
                 if t == "meth":
                     def new(self, a, b=0):
@@ -197,6 +202,8 @@ class C19(object):
                 return ("V", ("repl", "function", serial, (a, bb)))
             if kind == "bound":
                 return ("V", ("repl", "bound", serial, pos, ()))
+            if kind == "callable_shared":
+                return ("V", ("repl", "callable", "shared", pos, ()))
             if kind in ("callable", "new_callable"):
                 return ("V", ("repl", "callable", serial, pos, ()))
             return ("N", None)
@@ -207,12 +214,15 @@ class C19(object):
                 # not callable: identity / value only
                 cur = current(t)
                 want = originals[t] if not stacks[t] else stacks[t][-1][2]
-                if stacks[t] and stacks[t][-1][0] in ("default", "new_callable", "callable", "bound", "function"):
+                if stacks[t] and stacks[t][-1][0] in ("default", "new_callable", "callable", "callable_shared", "bound", "function"):
                     return
                 if want is not None and cur is not want and cur != want:
                     out.append(("installed", "target %s holds %r, the model says %r" % (t, cur, want)))
                 return
-            tgt = M.fn if t == "fn" else getattr(M.obj if t == "meth" else M.Cls, t)
+            via_instance = t == "meth" or (t in ("smeth", "cmeth") and (a + (b or 0)) % 2 == 1)
+            if via_instance and t != "meth":
+                probes["static_or_class_method_via_instance"] = probes.get("static_or_class_method_via_instance", 0) + 1
+            tgt = M.fn if t == "fn" else getattr(M.obj if via_instance else M.Cls, t)
             pos = (a,) if b is None else (a, b)
             probes["conv:" + conv] = probes.get("conv:" + conv, 0) + 1
             try:
